@@ -552,6 +552,70 @@ N("backscan-benign-map-join", ["C17", "C02", "C01"], "helpers.py", _PL,
 N("backscan-benign-strip-after-lstrip", ["C17", "C02", "C01"], "helpers.py", '                citation.metadata.plaintiff = plaintiff.rstrip("( ")\n',
   '                citation.metadata.plaintiff = plaintiff.strip("( ")\n')
 
+# ------------------------------------------------------------------ round-8 seeds (all 38 reported by their own check; 25 at first contact)
+P("seed-C01-11", ["C01"], "seeded/C01-11/patch.diff")
+P("seed-C01-12", ["C01"], "seeded/C01-12/patch.diff")
+P("seed-C02-11", ["C02"], "seeded/C02-11/patch.diff")
+P("seed-C02-12", ["C02"], "seeded/C02-12/patch.diff")
+P("seed-C03-11", ["C03"], "seeded/C03-11/patch.diff")
+P("seed-C03-12", ["C03"], "seeded/C03-12/patch.diff")
+P("seed-C04-11", ["C04"], "seeded/C04-11/patch.diff")
+P("seed-C04-12", ["C04"], "seeded/C04-12/patch.diff")
+P("seed-C06-11", ["C06"], "seeded/C06-11/patch.diff")
+P("seed-C06-12", ["C06"], "seeded/C06-12/patch.diff")
+P("seed-C07-11", ["C07"], "seeded/C07-11/patch.diff")
+P("seed-C07-12", ["C07"], "seeded/C07-12/patch.diff")
+P("seed-C08-11", ["C08"], "seeded/C08-11/patch.diff")
+P("seed-C08-12", ["C08"], "seeded/C08-12/patch.diff")
+P("seed-C09-11", ["C09"], "seeded/C09-11/patch.diff")
+P("seed-C09-12", ["C09"], "seeded/C09-12/patch.diff")
+P("seed-C10-11", ["C10"], "seeded/C10-11/patch.diff")
+P("seed-C10-12", ["C10"], "seeded/C10-12/patch.diff")
+P("seed-C11-11", ["C11"], "seeded/C11-11/patch.diff")
+P("seed-C11-12", ["C11"], "seeded/C11-12/patch.diff")
+P("seed-C12-11", ["C12"], "seeded/C12-11/patch.diff")
+P("seed-C12-12", ["C12"], "seeded/C12-12/patch.diff")
+P("seed-C13-11", ["C13"], "seeded/C13-11/patch.diff")
+P("seed-C13-12", ["C13"], "seeded/C13-12/patch.diff")
+P("seed-C14-11", ["C14"], "seeded/C14-11/patch.diff")
+P("seed-C14-12", ["C14"], "seeded/C14-12/patch.diff")
+P("seed-C15-11", ["C15"], "seeded/C15-11/patch.diff")
+P("seed-C15-12", ["C15"], "seeded/C15-12/patch.diff")
+P("seed-C16-11", ["C16"], "seeded/C16-11/patch.diff")
+P("seed-C16-12", ["C16"], "seeded/C16-12/patch.diff")
+P("seed-C17-11", ["C17"], "seeded/C17-11/patch.diff")
+P("seed-C17-12", ["C17"], "seeded/C17-12/patch.diff")
+P("seed-C18-11", ["C18"], "seeded/C18-11/patch.diff")
+P("seed-C18-12", ["C18"], "seeded/C18-12/patch.diff")
+P("seed-C19-11", ["C19"], "seeded/C19-11/patch.diff")
+P("seed-C19-12", ["C19"], "seeded/C19-12/patch.diff")
+P("seed-C20-11", ["C20"], "seeded/C20-11/patch.diff")
+P("seed-C20-12", ["C20"], "seeded/C20-12/patch.diff")
+
+# ------------------------------------------------------------------ round-8 rules: own variants
+B("c10-table-delete-points-back", ["C10"], "annotate.py", "partial(replace_offset, new_offset=offset + delta)", "partial(replace_offset, new_offset=offset + delta - 1)", rule="C10-R12")
+B("c10-table-insert-moves-back", ["C10"], "annotate.py", "                # push the delta forward\n                delta += amount\n",
+  "                # push the delta forward\n                delta -= amount\n", rule="C10-R12")
+B("c10-table-shift-doubles", ["C10"], "annotate.py", "            return offset + delta\n", "            return offset + offset + delta\n", rule="C10-R12")
+B("c10-difflib-autojunk", ["C10"], "annotate.py", "SequenceMatcher(a=a, b=b, autojunk=False)", "SequenceMatcher(a=a, b=b)", rule="C10-R5")
+N("c10-table-benign-keyword-order", ["C10", "C15", "C09"], "annotate.py", "                updaters.append(partial(shift_offset, delta=delta))\n                offset += amount\n",
+  "                updaters.append(partial(shift_offset, delta=delta + 0))\n                offset = offset + amount\n")
+B("c14-callback-skips-empty", ["C14"], "tokenizers.py", "            matches.append((self.extractors[index], (start, end)))\n",
+  "            if end > start + 1:\n                matches.append((self.extractors[index], (start, end)))\n", rule="R-C14-1")
+B("c15-cache-key-without-flags", ["C15"], "tokenizers.py", "                    str(expressions).encode(\"utf8\") + str(flags).encode(\"utf8\")\n",
+  "                    str(expressions).encode(\"utf8\")\n", rule="R-C15-7")
+B("c04-index-into-stripped-name", ["C04"], "resolve.py", "    ag: str = strip_punct(antecedent_guess)\n", "    ag: str = strip_punct(antecedent_guess)\n    if ag[-1] == \"s\":\n        ag = ag[:-1]\n", rule="T6")
+B("c04-regex-on-token", ["C04"], "helpers.py", "        if word.endswith(\";\"):\n", "        if word.endswith(\";\") and not re.match(r\"&\\w+;$\", word):\n", rule="T12")
+N("c04-regex-on-str-of-token", ["C04"], "helpers.py", "        if word.endswith(\";\"):\n", "        if word.endswith(\";\") and not re.match(r\"&\\w+;$\", str(word)):\n")
+B("c01-page-takes-space", ["C01"], "regexes.py", 'PAGE_NUMBER_REGEX = rf"(?:\\d+|{ROMAN_NUMERAL_REGEX}|_+)"', 'PAGE_NUMBER_REGEX = rf"(?:\\d+(?: \\d{{3}})*|{ROMAN_NUMERAL_REGEX}|_+)"', rule="R-C01-13")
+B("c16-page-star-placeholder", ["C16"], "regexes.py", 'PAGE_NUMBER_REGEX = rf"(?:\\d+|{ROMAN_NUMERAL_REGEX}|_+)"', 'PAGE_NUMBER_REGEX = rf"(?:\\d+|{ROMAN_NUMERAL_REGEX}|_+|\\*+)"', rule="R-C16-8")
+N2("c16-page-star-placeholder-normalised", ["C16", "C06", "C07"], [("regexes.py", 'PAGE_NUMBER_REGEX = rf"(?:\\d+|{ROMAN_NUMERAL_REGEX}|_+)"', 'PAGE_NUMBER_REGEX = rf"(?:\\d+|{ROMAN_NUMERAL_REGEX}|_+|\\*+)"'),
+    ("models.py", 're.search("^_+$", self.groups.get("page", "") or "")', 're.search(r"^(?:_+|\\*+)$", self.groups.get("page", "") or "")')])
+B("c19-reference-on-court", ["C19"], "models.py", '        "resolved_case_name",\n    ]\n', '        "resolved_case_name",\n        "court",\n    ]\n', rule="R-C19-9")
+B("c02-pin-cite-from-second-search", ["C02"], "helpers.py", '    citation.metadata.extra = (m["extra"] or "").strip() or None\n',
+  '    citation.metadata.extra = (m["extra"] or "").strip() or None\n    m2 = re.search(r"(?P<pin_cite>at \\d+)", m["extra"] or "")\n    if m2 and not citation.metadata.pin_cite:\n        citation.metadata.pin_cite = m2["pin_cite"]\n',
+  rule="R-C02-8")
+
 # ------------------------------------------------------------------ generated whole-package benign rewrites (every property)
 for _g in ("reformat", "logging", "rename-locals"):
     VARIANTS.append({"id": f"gen-{_g}", "kind": "benign", "props": ["*"], "gen": _g})
@@ -565,8 +629,8 @@ import os as _os
 # Patches of the benign corpus that some check still reports (benign/KNOWN-LIMITS.md): they are not part of the self-validation.
 # r1/r2/r4 = refactorings and code motion, r3 = maintenance commits (all silent), r5 = feature / fix commits that change behaviour but
 # keep every property, r6 = the same aimed at the core algorithms (where a shape-based prover has least to hold on to)
-_SKIP = {"r2-helpers-3", "r2-resolve-2", "r2-tokenizers-4"}
-_SKIP |= {"r4-annotate-2", "r4-find-4", "r4-helpers-3", "r4-resolve-4", "r4-tokenizers-2", "r4-tokenizers-3"}
+_SKIP = {"r2-helpers-3", "r2-resolve-2"}
+_SKIP |= {"r4-annotate-2", "r4-find-4", "r4-helpers-3", "r4-resolve-4"}
 _SKIP |= {"r5-annotate-3", "r5-tokenizers-1", "r5-tokenizers-2", "r5-tokenizers-3"}
 _SKIP |= {"r6-annotate-2", "r6-annotate-3", "r6-clean-1", "r6-clean-3", "r6-find-1", "r6-find-3", "r6-helpers-1", "r6-helpers-3", "r6-models-1", "r6-resolve-1", "r6-resolve-3", "r6-tokenizers-2", "r6-tokenizers-3", "r6-utils-1", "r6-utils-3"}
 for _f in sorted(_glob.glob(_os.path.join(_os.path.dirname(_os.path.dirname(__file__)), "benign", "*.diff"))):
